@@ -40,6 +40,8 @@ use compio_buf::{BufResult, IntoInner};
 use compio_driver::{AsFd, AsRawFd, BorrowedFd, RawFd, SharedFd, ToSharedFd};
 use compio_io::AsyncReadExt;
 use compio_runtime::Attacher;
+#[cfg(unix)]
+use compio_runtime::Runtime;
 use futures_util::future::Either;
 
 /// A process builder, providing fine-grained control
@@ -502,6 +504,16 @@ pub struct ChildStdin(Attacher<process::ChildStdin>);
 
 impl ChildStdin {
     fn new(stdin: process::ChildStdin) -> io::Result<Self> {
+        // The polling driver writes as soon as the pipe is writable, which only
+        // means that *some* space is free. A write larger than that would block
+        // the runtime thread until the child has read enough; if the child is
+        // itself waiting for us to read its output, that is a deadlock. With
+        // `O_NONBLOCK` the write is partial or the driver waits again. Only our
+        // end of the pipe is affected, the child's stdin stays blocking.
+        #[cfg(unix)]
+        if Runtime::with_current(|r| r.driver_type()).is_polling() {
+            sys::set_nonblocking(&stdin, true)?;
+        }
         Attacher::new(stdin).map(Self)
     }
 }
@@ -514,7 +526,12 @@ impl TryFrom<ChildStdin> for process::Stdio {
             .0
             .into_inner()
             .try_unwrap()
-            .map(Self::from)
+            .map(|stdin| {
+                // Whoever gets the handle next expects a blocking pipe.
+                #[cfg(unix)]
+                sys::set_nonblocking(&stdin, false).ok();
+                Self::from(stdin)
+            })
             .map_err(|fd| ChildStdin(unsafe { Attacher::from_shared_fd_unchecked(fd) }))
     }
 }
